@@ -30,7 +30,7 @@ RULE = ("each run draws capacity 1-12, a refill rate from {0.005..50}/s, 1-5 pee
         "bound over the admitted history. distinct = distinct (config, decision-vector, eviction "
         "pattern) signatures; non-trivial = at least one refusal AND (an eviction or a concurrent "
         "burst or a second address) occurred")
-PROBES = ["many_address_flood", "config_from_toml", "cleanup_race_scenario", "eviction_happened", "refusal", "slow_refill_run", "concurrent_burst", "wire_mode",
+PROBES = ["peer_reset_after_admission", "requests_with_varying_client_certificate", "many_address_flood", "config_from_toml", "cleanup_race_scenario", "eviction_happened", "refusal", "slow_refill_run", "concurrent_burst", "wire_mode",
           "idle_ge_600_with_partial_bucket"]
 COMPONENTS = {
     "real": ["nauyaca.server.middleware.RateLimiter/TokenBucket/MiddlewareChain",
@@ -161,7 +161,7 @@ def run_one(ch):
     net = sim.net
     model = Model(cap, rate)
     decisions = []     # (t, ip, allow, response)
-    st = {"evictions": 0, "burst": False, "idle_partial": False}
+    st = {"evictions": 0, "burst": False, "idle_partial": False, "leaver": False, "fp": False}
 
     rl_holder = {}
 
@@ -199,6 +199,9 @@ def run_one(ch):
         decisions.append((t, ip, allow, response))
 
     async def direct():
+        # the allowance belongs to the address, whatever client certificate comes with it
+        with_fp = ch.chance("with_fp", 0.3)
+        st["fp"] = with_fp
         rl = RateLimiter(make_config())
         rl_holder["rl"] = rl
         rl.start()
@@ -221,7 +224,11 @@ def run_one(ch):
             last_seen[ip] = t
 
             async def one(ip=ip):
-                allow, resp = await rl.process_request("gemini://h.sim/", ip, None)
+                fpv = None
+                if with_fp:
+                    fpv = [None, "sha256:" + "a" * 64, "sha256:" + "b" * 64, "sha256:" + "c" * 64][
+                        ch.choose("fp", 4)]
+                allow, resp = await rl.process_request("gemini://h.sim/", ip, fpv)
                 check_decision(net.now, ip, allow, resp)
             if burst == 1:
                 await one()
@@ -255,11 +262,31 @@ def run_one(ch):
                 return True, None
 
         slow_delay = {}
-        comps = ([Slow()] if slow_mw else []) + [Entry(), rl]
+        exits = []
+
+        class Exit:
+            """harness spy directly behind the limiter: reached = the limiter admitted"""
+            async def process_request(self, url, ip, fp=None):
+                exits.append(ip)
+                return True, None
+
+        comps = ([Slow()] if slow_mw else []) + [Entry(), rl, Exit()]
         chain = MiddlewareChain(comps)
+        # asynchronous handler + peers that reset their connection after admission and
+        # before the answer: an admitted request stays admitted
+        async_h = ch.chance("async_handler", 0.4)
+        hd = ch.pick("hdelay", [0.05, 0.5]) if async_h else 0.0
+        leavers = set()
 
         def handler(req):
-            return GeminiResponse(status=20, meta="text/plain", body="ok")
+            r = GeminiResponse(status=20, meta="text/plain", body="ok")
+            if not async_h:
+                return r
+
+            async def later():
+                await asyncio.sleep(hd)
+                return r
+            return later()
         server = await sim.loop.create_server(
             lambda: GeminiServerProtocol(handler, chain), "srv.sim", 1965)
         peers = []
@@ -280,7 +307,13 @@ def run_one(ch):
                     slow_delay[ip] = ch.pick("slowd", [0.0, 0.01, 0.2, 1.0])
                 port += 1
                 ep = raw_connect(net, "srv.sim", 1965, src=(ip, port))
-                p = RawPeer(net, ep, [("send", b"gemini://srv.sim/x\r\n")], name=f"p{port}")
+                script = [("send", b"gemini://srv.sim/x\r\n")]
+                if async_h and ch.chance("leaver", 0.4):
+                    script += [("sleep", ch.pick("leave_after", [0.002, 0.02, 0.2])), ("rst",)]
+                    leavers.add(port)
+                    st["leaver"] = True
+                p = RawPeer(net, ep, script, name=f"p{port}")
+                p.c10_port = port
                 peers.append((ip, p))
             known |= set(getattr(rl, "buckets", {}).keys())
         await asyncio.sleep(5.0)
@@ -288,13 +321,15 @@ def run_one(ch):
         by_ip = {}
         for ip, p in peers:
             by_ip.setdefault(ip, []).append(p)
-        if len(order) != len(peers):
+        if len(order) > len(peers) or (len(order) < len(peers) and not leavers):
             raise RuntimeError(f"wire mode: {len(order)} limiter entries for {len(peers)} requests")
         # peers of one ip may be reordered by the slow component; match by outcome count instead:
         # replay entry order through the model and compare the multiset of outcomes per ip
         got = {}
         for ip, p in peers:
             data = bytes(p.rx_plain)
+            if p.c10_port in leavers:
+                continue
             if data.startswith(b"20 text/plain\r\nok"):
                 got.setdefault(ip, []).append(True)
             elif data.startswith(b"44 "):
@@ -316,12 +351,17 @@ def run_one(ch):
             exp.setdefault(ip, []).append(a)
             decisions.append((t, ip, a, None))
         for ip in exp:
-            if sum(exp[ip]) != sum(got.get(ip, [])):
-                more = sum(got.get(ip, [])) > sum(exp[ip])
+            n_adm = exits.count(ip)
+            if not leavers and n_adm != sum(got.get(ip, [])):
+                res.violate("C10/wire-unexpected-response",
+                            f"address {ip}: the limiter admitted {n_adm} requests but "
+                            f"{sum(got.get(ip, []))} peers received the handler's answer")
+            if sum(exp[ip]) != n_adm:
+                more = n_adm > sum(exp[ip])
                 res.violate(
                     "C10/decision-differs/" + ("admitted-with-empty-allowance" if more
                                                else "refused-with-allowance-left"),
-                    f"wire mode: address {ip} had {sum(got.get(ip, []))} requests admitted, exact "
+                    f"wire mode: address {ip} had {n_adm} requests admitted, exact "
                     f"model admits {sum(exp[ip])}", cap=cap, rate=rate,
                     entries=[(t, i) for t, i in order if i == ip][:20])
         server.close()
@@ -430,6 +470,10 @@ def run_one(ch):
         res.stats["concurrent_burst"] += 1
     if wire:
         res.stats["wire_mode"] += 1
+    if st["leaver"]:
+        res.stats["peer_reset_after_admission"] += 1
+    if st["fp"]:
+        res.stats["requests_with_varying_client_certificate"] += 1
     if st["idle_partial"]:
         res.stats["idle_ge_600_with_partial_bucket"] += 1
     res.stats["decisions"] += len(decisions)
